@@ -168,6 +168,18 @@ func (hd *HeaderDirectives) ShouldCache(ignoreCacheControl bool) bool {
 	return true // If no cache control or expires headers prevent caching, we can cache
 }
 
+// Reports whether the response's own directives forbid answering from the store: what ShouldCache
+// would have said when the response arrived (at storedAt), had cache directives been honoured then.
+func (hd *HeaderDirectives) ForbidsReuse(storedAt time.Time) bool {
+	if hd.CacheControl.IsPresent() {
+		cc := hd.CacheControl.Value()
+		if cc.noCache || cc.maxAge < 1 {
+			return true
+		}
+	}
+	return hd.Expires.IsPresent() && hd.Expires.Value().Before(storedAt)
+}
+
 func (hd *HeaderDirectives) GetExpiresOrDefault(forceDefaultCacheMaxAge bool, defaultCacheMaxAge time.Duration) time.Time {
 	if !forceDefaultCacheMaxAge {
 		if hd.CacheControl.IsPresent() {
